@@ -246,7 +246,40 @@ def anchors():
     assert T.mask_decode(T.mask_encode(b"hello world", b"\x01\x02\x03\x04")) == b"hello world"
 
 
+def large_enumerate(tier, shard, nshards):
+    from ..runner import shard_iter
+
+    def gen():
+        for size in (65535, 65536, 65537, 200003):
+            for prog in range(4):
+                yield {"size": size, "prog": prog}
+
+    return shard_iter(gen(), shard, nshards)
+
+
+LARGE_PROGRAMS = [
+    [("BUILD", "id"), ("NETBIOS", True), ("PARAMETER", b"id"), ("BUILD", "output"), ("MASK", True), ("BASE64", True), ("PREPEND", b"data="), ("PRINT", True)],
+    [("BUILD", "metadata"), ("BASE64URL", True), ("NETBIOSU", True), ("APPEND", b"-tail"), ("HEADER", b"Cookie"), ("_HEADER", b"Accept: */*")],
+    [("BUILD", "output"), ("MASK", True), ("MASK", True), ("NETBIOS", True), ("BASE64", True), ("URI_APPEND", True), ("_PARAMETER", b"v=1")],
+    [("BUILD", "output"), ("PRINT", True), ("BUILD", "id"), ("BASE64", True), ("BASE64", True), ("HEADER", b"X-Id")],
+]
+
+
+def large_execute(case, stats):
+    """Payloads around and beyond 64 KiB through fixed multi-step programs (client and server direction)."""
+    import random as _r
+
+    from ..runner import Stats
+
+    rnd = _r.Random(case["size"] + case["prog"])
+    blob = rnd.randbytes(case["size"])
+    client_execute({"steps": LARGE_PROGRAMS[case["prog"]], "fields": {"metadata": blob, "id": b"12345", "output": blob[::-1]}, "initial": None, "rng": case["size"], "masks": [b"\x01\x02\x03\x04"] * 8, "pad_b64url": bool(case["prog"] % 2)}, Stats())
+    server_execute({"rsteps": [("print", True), ("append", 1522), ("prepend", 84), ("prepend", 3931), ("base64url", True), ("mask", True)], "output": blob, "rng": 3, "masks": [b"\xaa\xbb\xcc\xdd"] * 8, "fill": [b"ab"] * 8, "pad_b64url": True}, Stats())
+    stats.note(case, True, classes=["large_payload"])
+
+
 SUBS = [
+    Sub("large_payloads", large_execute, enumerate=large_enumerate, exhaustive=True),
     Sub("client_programs", client_execute, strategy=client_strategy, examples={"quick": 6400, "thorough": 160000}),
     Sub("server_programs", server_execute, strategy=server_strategy, examples={"quick": 4800, "thorough": 96000}),
 ]
